@@ -237,17 +237,18 @@ fn check_case<const N: usize>(input: &[u8], end_at: usize, end: StreamEnd, whole
             }
         }
         None => {
-            let want = if stream.len() >= N {
-                HttpError::HeadTooLong
-            } else if stream.is_empty() {
-                HttpError::Disconnected
+            // "head larger than the head buffer" vs "premature end of stream" (the latter has
+            // two documented spellings, Disconnected and Truncated; which one is used for an
+            // empty stream is not part of the property)
+            let ok = if stream.len() >= N {
+                reference.err == Some(HttpError::HeadTooLong)
             } else {
-                HttpError::Truncated
+                matches!(reference.err, Some(HttpError::Truncated | HttpError::Disconnected))
             };
-            if reference.err.as_ref() != Some(&want) {
+            if !ok {
                 return Some(Outcome::fail(
                     "C01.end_of_stream_class",
-                    format!("no head terminator within {} received bytes (buffer {N}): expected {want:?}, got {}", stream.len(), reference.result),
+                    format!("no head terminator within {} received bytes (buffer {N}): expected {}, got {}", stream.len(), if stream.len() >= N { "HeadTooLong" } else { "a premature-end-of-stream error" }, reference.result),
                 ));
             }
         }
